@@ -203,6 +203,16 @@ Section Half.
     - lia.
   Qed.
 
+  (* if the snake moved, its last step was over a match *)
+  Lemma snake_last x y : x < fst (snake x y) -> M (fst (snake x y) - 1) (snd (snake x y) - 1) = true.
+  Proof.
+    assert (P : fst (snake x y) = x \/ M (fst (snake x y) - 1) (snd (snake x y) - 1) = true).
+    { apply (snake_inv (fun x' y' => x' = x \/ M (x' - 1) (y' - 1) = true)).
+      - intros x' y' _ _ _ Hm. right. now replace (x' + 1 - 1) with x' by lia; replace (y' + 1 - 1) with y' by lia.
+      - now left. }
+    intros Hlt. destruct P as [P|P]; [lia|exact P].
+  Qed.
+
   (* x = v[k+1] or v[k-1] + 1 *)
   Definition pickx (f : Z -> Z) (d k : Z) : Z :=
     if k =? - d then f (k + 1)
